@@ -717,17 +717,19 @@ func (m *Manager) publishBlockInternal(ctx context.Context) error {
 		return fmt.Errorf("failed to save block: %w", err)
 	}
 
-	// Update the store height before submitting to the DA layer but after committing to the DB
-	headerHeight := header.Height()
-	if err = m.store.SetHeight(ctx, headerHeight); err != nil {
-		return err
-	}
-
 	newState.DAHeight = m.daHeight.Load()
 	// After this call m.lastState is the NEW state returned from ApplyBlock
 	// updateState also commits the DB tx
 	if err = m.updateState(ctx, newState); err != nil {
 		return fmt.Errorf("failed to update state: %w", err)
+	}
+
+	// Update the store height before submitting to the DA layer but after committing the block and the state
+	// to the DB: if the node stops in between, NewManager raises the height to the state's height on restart,
+	// whereas a height that is ahead of the persisted state could never be recovered from.
+	headerHeight := header.Height()
+	if err = m.store.SetHeight(ctx, headerHeight); err != nil {
+		return err
 	}
 
 	m.recordMetrics(data)
